@@ -460,3 +460,49 @@ Proof.
   - apply ids_eqb_eq in He. contradiction.
   - apply andb_false_r.
 Qed.
+
+(* ------------------------------------------------ compact encodings (large calls) *)
+
+(* what the harness computes on a large call: the positions at which the array
+   after the call differs from the array before, with the new values *)
+Fixpoint diff_of (a b : list N) (i : N) : list (N * N) :=
+  match a, b with
+  | x :: a', y :: b' => if (x =? y)%N then diff_of a' b' (i + 1) else (i, y) :: diff_of a' b' (i + 1)
+  | _, _ => []
+  end.
+
+Lemma diff_of_ge a : forall b i j v, In (j, v) (diff_of a b i) -> (i <= j)%N.
+Proof.
+  induction a as [|x a' IH]; intros b i j v Hin; [destruct Hin|].
+  destruct b as [|y b']; [destruct Hin|].
+  cbn [diff_of] in Hin. destruct (N.eqb_spec x y) as [_|_].
+  - apply IH in Hin. lia.
+  - destruct Hin as [Heq|Hin]; [inversion Heq; lia | apply IH in Hin; lia].
+Qed.
+
+(* patching the array before the call with that comparison gives back the array after the call *)
+Lemma patch_diff a : forall b i, length a = length b -> patch_ids a i (diff_of a b i) = b.
+Proof.
+  induction a as [|x a' IH]; intros b i Hlen; destruct b as [|y b']; try discriminate Hlen; [reflexivity|].
+  injection Hlen as Hlen. specialize (IH b' (i + 1)%N Hlen).
+  cbn [diff_of]. destruct (N.eqb_spec x y) as [Hxy|Hxy].
+  - subst y. cbn [patch_ids]. destruct (diff_of a' b' (i + 1)) as [|[j v] ds] eqn:Ed.
+    + now rewrite IH.
+    + assert (Hge : (i + 1 <= j)%N) by (apply (diff_of_ge a' b' _ j v); rewrite Ed; now left).
+      destruct (N.eqb_spec i j) as [Hij|_]; [lia|]. now rewrite IH.
+  - cbn [patch_ids]. rewrite N.eqb_refl. now rewrite IH.
+Qed.
+
+Lemma patch_nil l : forall i, patch_ids l i [] = l.
+Proof. induction l as [|x t IH]; intro i; cbn [patch_ids map]; [reflexivity | now rewrite IH]. Qed.
+
+Lemma diff_nil_iff a : forall b i, length a = length b -> (diff_of a b i = [] <-> a = b).
+Proof.
+  intros b i Hlen; split; intro H.
+  - rewrite <- (patch_diff a b i Hlen), H. symmetry; apply patch_nil.
+  - subst b. revert i. induction a as [|x a' IH]; intro i; [reflexivity|].
+    cbn [diff_of]. rewrite N.eqb_refl. apply IH. reflexivity.
+Qed.
+
+Lemma of_runs_singletons {A} (l : list A) : of_runs (map (fun x => (x, 1%N)) l) = l.
+Proof. induction l as [|x t IH]; [reflexivity|]. cbn. unfold of_runs in IH. now rewrite IH. Qed.
